@@ -676,7 +676,7 @@ def main(argv=None):
             print(i, ob.name)
         return 0
     idx = [i for i, ob in enumerate(obs) if not a.only or a.only in ob.name]
-    budget = getattr(hm, "BUDGET_S", {}).get(tier, 150 if tier == "quick" else 2400)
+    budget = getattr(hm, "BUDGET_S", {}).get(tier, 420 if tier == "quick" else 3000)
     # most expensive first
     idx.sort(key=lambda i: -obs[i].cost)
     jobs = max(1, min(a.jobs, len(idx)))
